@@ -199,14 +199,15 @@ def main():
     units.append(('luth',)); units.append(('lutinv',))
     for parts in ([0, 1, 2, 3], [3, 1, 2, 0], [7, 200, 5]): units.append(('tdpa', parts))
     for which in (1, 2): units += [('part', which, 2, 1, 1, 3, 'float32', 'float32'), ('tpl', which, 2, 1, 3, 'float32', 'float32')]
-    units.append(('mia', 2, 1, 1, 2, 2, 'float32')); units.append(('miainv', 'float32', 3, -1, 2))
+    units.append(('mia', 2, 1, 1, 2, 2, 'float32')); units.append(('miainv', 'float32', 3, -1, 2)); units.append(('k2n', 1, 2, 3, 'float32', 'float32'))
     for td, pr in (('float32', 'float32'), ('uint8', 'float64')): units += [('inv', 'pk1', td, pr), ('inv', 'tk1', td, pr)]
     def work(sub, kind, *args):
         if kind == 'inv':
             which, td, pr = args
             fn_, key_, exp_, dist_ = {'pk1': (KI.partitioned_core1, KN.PM + '::PartitionedDistinguisherMixin._accumulate_core_1', (1, 1, 1), 'SNR'), 'tk1': (KI.template_core1, KN.TM + '::_TemplateBuildDistinguisherMixin._accumulate_core_1', (1, 1), 'TemplateBuild'), 'tt': (KI.ttest_core, KN.TT + '::TTestThreadAccumulator._update_core', (1,), 'ttest')}[which]
             KI.report(sub, fn_(u, td, pr), '%s loop invariants (class by value of the index, -1 contributes nothing), all extents symbolic, %s->%s' % ({'pk1': 'partitioned kernel 1', 'tk1': 'template build kernel 1', 'tt': 't-test kernel'}[which], td, pr), key_, timeout, exp_, native, dict(kind='foreign', dist=dist_)); return
-        if kind == 'miainv': KI.report(sub, KI.mia_core(u, *args), 'MIA kernel loop invariants (class by value of the index, -1 contributes nothing), all extents symbolic', KN.MM + '::MIADistinguisherMixin._accumulate_core', timeout, [(1, 1, 1), (1, 1, 0)], native, dict(kind='foreign', dist='MIA'))
+        if kind == 'k2n': KI.report(sub, KI.partitioned_core2(u, *args), 'partitioned kernel 2 (class by value of the index), number of traces symbolic', KN.PM + '::PartitionedDistinguisherMixin._accumulate_core_2', timeout, (), native, dict(kind='foreign', dist='SNR'), sat_is_undecided=True)
+        elif kind == 'miainv': KI.report(sub, KI.mia_core(u, *args), 'MIA kernel loop invariants (class by value of the index, -1 contributes nothing), all extents symbolic', KN.MM + '::MIADistinguisherMixin._accumulate_core', timeout, [(1, 1, 1), (1, 1, 0)], native, dict(kind='foreign', dist='MIA'))
         elif kind == 'lut': lut_case(u, sub, args[0], args[1], timeout)
         elif kind == 'auto': auto_set(u, sub, args[0], timeout)
         elif kind == 'luth': lut_history(u, sub, timeout)
